@@ -232,12 +232,24 @@ class Threadless(ABC, Generic[T]):
         unfinished_work_ids = set()
         for task in self.unfinished:
             unfinished_work_ids.add(task._work_id)   # type: ignore
+        faulty: List[int] = []
         for work_id in self.works:
             # We don't want to invoke work objects which haven't
             # yet finished their previous task
             if work_id in unfinished_work_ids:
                 continue
-            await self._update_work_events(work_id)
+            try:
+                await self._update_work_events(work_id)
+            except Exception as exc:
+                # An exception while refreshing events of interest of a work
+                # must only take down the offending work, never the loop
+                logger.warning(
+                    'Exception when updating events for work#%d' % work_id,
+                    exc_info=exc,
+                )
+                faulty.append(work_id)
+        for work_id in faulty:
+            self._cleanup(work_id)
         await self._update_conn_pool_events()
 
     async def _selected_events(self) -> Tuple[
@@ -298,7 +310,15 @@ class Threadless(ABC, Generic[T]):
     def _cleanup_inactive(self) -> None:
         inactive_works: List[int] = []
         for work_id in self.works:
-            if self.works[work_id].is_inactive():
+            try:
+                inactive = self.works[work_id].is_inactive()
+            except Exception as exc:
+                logger.warning(
+                    'Exception in is_inactive of work#%d' % work_id,
+                    exc_info=exc,
+                )
+                inactive = True
+            if inactive:
                 inactive_works.append(work_id)
         for work_id in inactive_works:
             self._cleanup(work_id)
@@ -313,13 +333,29 @@ class Threadless(ABC, Generic[T]):
                         fileno, work_id,
                     ),
                 )
-                self.selector.unregister(fileno)
+                try:
+                    self.selector.unregister(fileno)
+                except (KeyError, ValueError, OSError) as exc:
+                    logger.debug(
+                        'fd#{0} of work#{1} was not registered'.format(
+                            fileno, work_id,
+                        ),
+                        exc_info=exc,
+                    )
             self.registered_events_by_work_ids[work_id].clear()
             del self.registered_events_by_work_ids[work_id]
-        self.works[work_id].shutdown()
-        del self.works[work_id]
-        if self.work_queue_fileno() is not None:
-            os.close(work_id)
+        try:
+            self.works[work_id].shutdown()
+        except Exception as exc:
+            # Never let a failing shutdown of one work leave the loop
+            logger.warning(
+                'Exception during shutdown of work#%d' % work_id,
+                exc_info=exc,
+            )
+        finally:
+            del self.works[work_id]
+            if self.work_queue_fileno() is not None:
+                os.close(work_id)
 
     def _create_tasks(
             self,
